@@ -252,7 +252,46 @@ def gen_junit():
     return "\n".join(out) + "\n"
 
 
+def gen_gherkin():
+    """behave/i18n.py keyword tables and the case mapping the step-keyword scan needs"""
+    import sys
+    from behave import i18n
+    kinds = ["feature", "rule", "background", "scenario", "scenario_outline", "examples", "given", "when", "then", "and", "but"]
+    langs = []
+    lowered = set()
+    for code in sorted(i18n.languages):
+        tab = i18n.languages[code]
+        fields = []
+        for k in kinds:
+            v = tab.get(k)
+            if not isinstance(v, list) or not all(isinstance(a, str) for a in v):
+                raise ValueError("gen_gherkin: language %s keyword %s is not a list of strings" % (code, k))
+            fields.append(clist([cstr_(a) for a in v], "ustr"))
+            for a in v:
+                lowered.update(a.lower())
+        langs.append("  (%s, mkKw %s)" % (cstr_(code), " ".join(fields)))
+    # str.lower() restricted to what can matter for startswith(keyword.lower()): characters whose lower case is one
+    # character occurring in a lower-cased keyword; characters whose lower case is longer than one character are listed apart
+    pairs, multi = [], []
+    for c in range(sys.maxunicode + 1):
+        if 0xD800 <= c <= 0xDFFF:
+            continue
+        lo = chr(c).lower()
+        if len(lo) != 1:
+            multi.append(c)
+        elif lo != chr(c) and lo in lowered:
+            pairs.append((c, ord(lo)))
+    out = ["(* GENERATED from %s/behave/i18n.py (languages) and str.lower by harness/gen_more.py *)" % REPO,
+           "From BV Require Import Base GherkinTypes.", "",
+           "Definition languages : list (ustr * kwtable) := [\n%s\n]." % ";\n".join(langs), "",
+           "Definition kw_lower_pairs : list (N * N) := %s." % clist(["(%d%%N, %d%%N)" % p for p in pairs], "N * N"),
+           "Definition multi_lower_cps : list N := %s." % clist(["%d%%N" % c for c in multi], "N"),
+           "Definition default_language : ustr := %s." % cstr_("en")]
+    return "\n".join(out) + "\n"
+
+
 GENERATORS = {
+    "GherkinTables.v": gen_gherkin,
     "JUnitTables.v": gen_junit,
     "OutlineTables.v": gen_outline,
     "ConfigTables.v": gen_config,
